@@ -158,12 +158,12 @@ func ReaderFromDelta(base plumbing.EncodedObject, deltaRC io.Reader) (io.ReadClo
 			case isCopyFromSrc(cmd):
 				offset, err := decodeOffsetByteReader(cmd, deltaBuf)
 				if err != nil {
-					_ = dstWr.CloseWithError(err)
+					_ = dstWr.CloseWithError(eofAsInvalidDelta(err))
 					return
 				}
 				sz, err := decodeSizeByteReader(cmd, deltaBuf)
 				if err != nil {
-					_ = dstWr.CloseWithError(err)
+					_ = dstWr.CloseWithError(eofAsInvalidDelta(err))
 					return
 				}
 
@@ -250,6 +250,16 @@ func ReaderFromDelta(base plumbing.EncodedObject, deltaRC io.Reader) (io.ReadClo
 	}()
 
 	return dstRd, nil
+}
+
+// eofAsInvalidDelta maps io.EOF, which means the delta ended inside the
+// parameters of a command, to ErrInvalidDelta so that the consumer of the
+// pipe does not see it as a clean end of stream.
+func eofAsInvalidDelta(err error) error {
+	if err == io.EOF {
+		return ErrInvalidDelta
+	}
+	return err
 }
 
 func patchDelta(dst *bytes.Buffer, src, delta []byte) error {
